@@ -265,4 +265,603 @@ theorem pl_paren (lvl l : Int) (rest inside after : List Tok) (acc : List Val) (
       simp at hd; subst hd; simp
     | cons i is => simp [hd]
 
+/-! ### all tokens of a body are at least as deep as the body -/
+
+mutual
+  theorem ltoksV_ge : ∀ (v : Val) (l : Int), ∀ t ∈ ltoksV l v, l ≤ t.1
+    | .leaf x, l, t, ht => by
+      cases x <;> simp [ltoksV] at ht
+      subst ht; simp
+    | .dict es, l, t, ht => by
+      simp only [ltoksV, List.mem_cons, List.mem_append, List.not_mem_nil, or_false, or_assoc] at ht
+      rcases ht with rfl | ht | rfl
+      · simp
+      · have := ltoksEs_ge es (l + 1) t ht; omega
+      · simp
+    | .list xs, l, t, ht => by
+      simp only [ltoksV, List.mem_cons, List.mem_append, List.not_mem_nil, or_false, or_assoc] at ht
+      rcases ht with rfl | ht | rfl
+      · simp
+      · have := ltoksXs_ge xs (l + 1) t ht; omega
+      · simp
+  theorem ltoksEs_ge : ∀ (es : Entries) (l : Int), ∀ t ∈ ltoksEs l es, l ≤ t.1
+    | [], l, t, ht => by simp [ltoksEs] at ht
+    | (.int z, v) :: es, l, t, ht => by
+      simp only [ltoksEs] at ht
+      exact ltoksEs_ge es l t ht
+    | (.str k, .leaf x) :: es, l, t, ht => by
+      cases x with
+      | str w =>
+        simp only [ltoksEs, List.mem_append] at ht
+        rcases ht with ht | ht
+        · split at ht <;> simp at ht <;> rcases ht with rfl | rfl | rfl <;> simp
+        · exact ltoksEs_ge es l t ht
+      | _ =>
+        simp only [ltoksEs] at ht
+        exact ltoksEs_ge es l t ht
+    | (.str k, .dict d) :: es, l, t, ht => by
+      simp only [ltoksEs, List.mem_cons, List.mem_append, List.not_mem_nil, or_false, or_assoc] at ht
+      rcases ht with rfl | rfl | ht | rfl | ht
+      · simp
+      · simp
+      · have := ltoksEs_ge d (l + 1) t ht; omega
+      · simp
+      · exact ltoksEs_ge es l t ht
+    | (.str k, .list xs) :: es, l, t, ht => by
+      simp only [ltoksEs, List.mem_cons, List.mem_append, List.not_mem_nil, or_false, or_assoc] at ht
+      rcases ht with rfl | rfl | ht | rfl | rfl | ht
+      · simp
+      · simp
+      · have := ltoksXs_ge xs (l + 1) t ht; omega
+      · simp
+      · simp
+      · exact ltoksEs_ge es l t ht
+  theorem ltoksXs_ge : ∀ (xs : List Val) (l : Int), ∀ t ∈ ltoksXs l xs, l ≤ t.1
+    | [], l, t, ht => by simp [ltoksXs] at ht
+    | v :: xs, l, t, ht => by
+      simp only [ltoksXs, List.mem_append] at ht
+      rcases ht with ht | ht
+      · exact ltoksV_ge v l t ht
+      · exact ltoksXs_ge xs l t ht
+end
+
+/-! ## theorems -/
+
+/-! ### A. levels -/
+
+mutual
+  theorem levels_toksV : ∀ (v : Val) (lvl : Int) (rest : List Str), TokWFV v = true →
+      levels lvl (toksV v ++ rest) = ltoksV lvl v ++ levels lvl rest
+    | .leaf x, lvl, rest, h => by
+      cases x with
+      | str w =>
+        simp only [TokWFV, Bool.and_eq_true] at h
+        simp only [toksV, ltoksV, List.cons_append, List.nil_append]
+        exact levels_word lvl rest h.1
+      | _ => simp [TokWFV] at h
+    | .dict es, lvl, rest, h => by
+      simp only [TokWFV] at h
+      simp only [toksV, ltoksV, List.cons_append, List.append_assoc, List.nil_append]
+      rw [levels_open lvl '{' _ (by decide), levels_toksEs es (lvl + 1) _ h,
+        levels_close lvl '}' _ (by decide) (by decide)]
+    | .list xs, lvl, rest, h => by
+      simp only [TokWFV] at h
+      simp only [toksV, ltoksV, List.cons_append, List.append_assoc, List.nil_append]
+      rw [levels_open lvl '(' _ (by decide), levels_toksXs xs (lvl + 1) _ h,
+        levels_close lvl ')' _ (by decide) (by decide)]
+  theorem levels_toksEs : ∀ (es : Entries) (lvl : Int) (rest : List Str), TokWFEs es = true →
+      levels lvl (toksEs es ++ rest) = ltoksEs lvl es ++ levels lvl rest
+    | [], lvl, rest, _ => by simp [toksEs, ltoksEs]
+    | (.int z, v) :: es, lvl, rest, h => by simp [TokWFEs] at h
+    | (.str k, .leaf x) :: es, lvl, rest, h => by
+      cases x with
+      | str w =>
+        simp only [TokWFEs, Bool.and_eq_true] at h
+        obtain ⟨h1, hes⟩ := h
+        simp only [toksEs, ltoksEs]
+        by_cases hp : isPhTok k = true
+        · simp only [hp, if_true, Bool.and_eq_true] at h1 ⊢
+          simp only [List.cons_append, List.nil_append]
+          rw [levels_word lvl _ h1.1, levels_toksEs es lvl rest hes]
+        · simp only [hp, if_false, Bool.and_eq_true, Bool.false_eq_true] at h1 ⊢
+          simp only [List.cons_append, List.nil_append]
+          rw [levels_word lvl _ h1.1.1.1, levels_word lvl _ h1.1.2, levels_semi, levels_toksEs es lvl rest hes]
+      | _ => simp [TokWFEs, TokWFV] at h
+    | (.str k, .dict d) :: es, lvl, rest, h => by
+      simp only [TokWFEs, TokWFV, Bool.and_eq_true] at h
+      obtain ⟨⟨⟨⟨hk, _⟩, _⟩, hd⟩, hes⟩ := h
+      simp only [toksEs, ltoksEs, List.cons_append, List.append_assoc, List.nil_append]
+      rw [levels_word lvl _ hk, levels_open lvl '{' _ (by decide), levels_toksEs d (lvl + 1) _ hd,
+        levels_close lvl '}' _ (by decide) (by decide), levels_toksEs es lvl rest hes]
+    | (.str k, .list l) :: es, lvl, rest, h => by
+      simp only [TokWFEs, TokWFV, Bool.and_eq_true] at h
+      obtain ⟨⟨⟨⟨hk, _⟩, _⟩, hd⟩, hes⟩ := h
+      simp only [toksEs, ltoksEs, List.cons_append, List.append_assoc, List.nil_append]
+      rw [levels_word lvl _ hk, levels_open lvl '(' _ (by decide), levels_toksXs l (lvl + 1) _ hd,
+        levels_close lvl ')' _ (by decide) (by decide), levels_semi, levels_toksEs es lvl rest hes]
+  theorem levels_toksXs : ∀ (xs : List Val) (lvl : Int) (rest : List Str), TokWFXs xs = true →
+      levels lvl (toksXs xs ++ rest) = ltoksXs lvl xs ++ levels lvl rest
+    | [], lvl, rest, _ => by simp [toksXs, ltoksXs]
+    | v :: xs, lvl, rest, h => by
+      simp only [TokWFXs, Bool.and_eq_true] at h
+      simp only [toksXs, ltoksXs, List.append_assoc]
+      rw [levels_toksV v lvl _ h.1, levels_toksXs xs lvl rest h.2]
+end
+
+/-- **A.** the level annotation of a generated token stream is the nesting depth -/
+theorem levels_toks (es : Entries) (lvl : Int) (rest : List Str) (h : TokWFEs es = true) :
+    levels lvl (toksEs es ++ rest) = ltoksEs lvl es ++ levels lvl rest := levels_toksEs es lvl rest h
+
+theorem levels_toks_nil (es : Entries) (lvl : Int) (h : TokWFEs es = true) :
+    levels lvl (toksEs es) = ltoksEs lvl es := by
+  simpa [levels] using levels_toks es lvl [] h
+
+/-! ### B. the scanner computes the denotation -/
+
+theorem boundary_nil (lvl : Int) : Boundary lvl [] := rfl
+
+theorem boundary_semi (lvl : Int) (prev : List Tok) : Boundary lvl ((lvl, [';']) :: prev) := by
+  simp [Boundary, kvBefore]
+
+theorem boundary_rbrace (lvl : Int) (prev : List Tok) : Boundary lvl ((lvl, ['}']) :: prev) := by
+  simp [Boundary, kvBefore]
+
+theorem boundary_ph (lvl : Int) (k : Str) (prev : List Tok) (h : isPhTok k = true) :
+    Boundary lvl ((lvl, k) :: prev) := by
+  simp only [isPhTok, Bool.or_eq_true] at h
+  rcases h with h | h <;> simp [Boundary, kvBefore, h]
+
+theorem kvBefore_word (lvl : Int) (w : Str) (prev : List Tok) (hw : isWordTok w = true) (hp : isPhTok w = false) :
+    kvBefore lvl ((lvl, w) :: prev) = w :: kvBefore lvl prev := by
+  simp [kvBefore, wordTok_ne_semiTok hw, wordTok_ne_rbraceTok hw, (notPh hp).1, (notPh hp).2]
+
+/-- (iii) the key of a nested structure is the token right before the bracket -/
+theorem keyBefore_word (lvl : Int) (k : Str) (prev : List Tok) (hp : isPhTok k = false) :
+    keyBefore ((lvl, k) :: prev) = some k := by
+  simp [keyBefore, (notPh hp).1]
+
+theorem pd_nil (top : Bool) (prev : List Tok) (acc : Entries) : parseDictToks top prev [] acc = .ok acc := by
+  rw [parseDictToks.eq_def]
+
+theorem pl_nil (lvl : Int) (acc : List Val) : parseListToks lvl [] acc = .ok acc := by
+  rw [parseListToks.eq_def]
+
+mutual
+  /-- the scanner invariant over the entries of one dict level -/
+  theorem scanEs : ∀ (es : Entries) (top : Bool) (lvl : Int) (prev rest : List Tok) (acc : Entries),
+      TokWFEs es = true → Boundary lvl prev →
+      parseDictToks top prev (ltoksEs lvl es ++ rest) acc =
+        parseDictToks top ((ltoksEs lvl es).reverse ++ prev) rest (denEs es acc)
+    | [], top, lvl, prev, rest, acc, _, _ => by simp [ltoksEs, denEs]
+    | (.int z, v) :: es, _, _, _, _, _, h, _ => by simp [TokWFEs] at h
+    | (.str k, .leaf x) :: es, top, lvl, prev, rest, acc, h, hB => by
+      cases x with
+      | str w =>
+        simp only [TokWFEs, Bool.and_eq_true] at h
+        obtain ⟨h1, hes⟩ := h
+        simp only [ltoksEs, denEs]
+        by_cases hp : isPhTok k = true
+        · simp only [hp, if_true, Bool.and_eq_true] at h1 ⊢
+          simp only [List.cons_append, List.nil_append]
+          rw [pd_ph top prev lvl k _ acc h1.1 hp,
+            scanEs es top lvl _ rest _ hes (boundary_ph lvl k prev hp)]
+          simp
+        · have hp' : isPhTok k = false := by simpa using hp
+          simp only [hp, if_false, Bool.and_eq_true, Bool.false_eq_true, Bool.not_eq_true',
+            Option.isSome_iff_exists] at h1 ⊢
+          obtain ⟨⟨⟨hk, key, hkey⟩, hw⟩, hwp⟩ := h1
+          simp only [List.cons_append, List.nil_append, hkey]
+          have hkv : kvBefore lvl ((lvl, w) :: (lvl, k) :: prev) = [w, k] := by
+            rw [kvBefore_word lvl w _ hw hwp, kvBefore_word lvl k _ hk hp', hB]
+          rw [pd_word top prev lvl k _ acc hk hp', pd_word top _ lvl w _ acc hw hwp,
+            pd_semi_kv top _ _ lvl _ acc w k key (wordTok_ne_rparenTok hw) hkv hkey,
+            scanEs es top lvl _ rest _ hes (boundary_semi lvl _)]
+          simp
+      | _ => simp [TokWFEs, TokWFV] at h
+    | (.str k, .dict d) :: es, top, lvl, prev, rest, acc, h, hB => by
+      simp only [TokWFEs, TokWFV, Bool.and_eq_true, Bool.not_eq_true', Option.isSome_iff_exists] at h
+      obtain ⟨⟨⟨⟨hk, hkp⟩, key, hkey⟩, hd⟩, hes⟩ := h
+      simp only [ltoksEs, denEs, denV, hkey, List.cons_append, List.append_assoc, List.nil_append]
+      have hsplit := splitGroup_skip ['}'] lvl (ltoksEs (lvl + 1) d) (ltoksEs lvl es ++ rest)
+        (fun t ht => by have := ltoksEs_ge d (lvl + 1) t ht; omega)
+      have hinner : parseDictToks false [] (ltoksEs (lvl + 1) d) [] = .ok (denEs d []) := by
+        have := scanEs d false (lvl + 1) [] [] [] hd (boundary_nil _)
+        simpa [pd_nil] using this
+      rw [pd_word top prev lvl k _ acc hk hkp,
+        pd_brace top _ lvl _ _ _ acc k key _ (keyBefore_word lvl k prev hkp) hsplit hkey hinner,
+        scanEs es top lvl _ rest _ hes (boundary_rbrace lvl _)]
+      simp
+    | (.str k, .list l) :: es, top, lvl, prev, rest, acc, h, hB => by
+      simp only [TokWFEs, TokWFV, Bool.and_eq_true, Bool.not_eq_true', Option.isSome_iff_exists] at h
+      obtain ⟨⟨⟨⟨hk, hkp⟩, key, hkey⟩, hl⟩, hes⟩ := h
+      simp only [ltoksEs, denEs, denV, hkey, List.cons_append, List.append_assoc, List.nil_append]
+      have hsplit := splitGroup_skip [')'] lvl (ltoksXs (lvl + 1) l) ((lvl, [';']) :: (ltoksEs lvl es ++ rest))
+        (fun t ht => by have := ltoksXs_ge l (lvl + 1) t ht; omega)
+      have hinner : parseListToks (lvl + 1) (ltoksXs (lvl + 1) l) [] = .ok (denXs l) := by
+        have := scanXs l (lvl + 1) (lvl + 1) [] [] hl
+        simpa [pl_nil] using this
+      rw [pd_word top prev lvl k _ acc hk hkp,
+        pd_paren top _ lvl _ _ _ _ acc k key _ (keyBefore_word lvl k prev hkp) hsplit hkey hinner,
+        pd_semi_rparen top _ _ lvl _ _ rfl,
+        scanEs es top lvl _ rest _ hes (boundary_semi lvl _)]
+      simp
+  /-- the scanner invariant over the items of a list -/
+  theorem scanXs : ∀ (xs : List Val) (lvl' lvl : Int) (rest : List Tok) (acc : List Val),
+      TokWFXs xs = true →
+      parseListToks lvl' (ltoksXs lvl xs ++ rest) acc = parseListToks lvl' rest (acc ++ denXs xs)
+    | [], _, _, _, _, _ => by simp [ltoksXs, denXs]
+    | .leaf x :: xs, lvl', lvl, rest, acc, h => by
+      cases x with
+      | str w =>
+        simp only [TokWFXs, TokWFV, Bool.and_eq_true] at h
+        simp only [ltoksXs, ltoksV, denXs, denV, List.cons_append, List.nil_append]
+        rw [pl_word lvl' lvl w _ acc h.1.1, scanXs xs lvl' lvl rest _ h.2]
+        simp
+      | _ => simp [TokWFXs, TokWFV] at h
+    | .dict d :: xs, lvl', lvl, rest, acc, h => by
+      simp only [TokWFXs, TokWFV, Bool.and_eq_true] at h
+      simp only [ltoksXs, ltoksV, denXs, denV, List.cons_append, List.append_assoc, List.nil_append]
+      have hsplit := splitGroup_skip ['}'] lvl (ltoksEs (lvl + 1) d) (ltoksXs lvl xs ++ rest)
+        (fun t ht => by have := ltoksEs_ge d (lvl + 1) t ht; omega)
+      have hinner : parseDictToks false [] (ltoksEs (lvl + 1) d) [] = .ok (denEs d []) := by
+        have := scanEs d false (lvl + 1) [] [] [] h.1 (boundary_nil _)
+        simpa [pd_nil] using this
+      rw [pl_brace lvl' lvl _ _ _ acc _ hsplit hinner, scanXs xs lvl' lvl rest _ h.2]
+      simp
+    | .list l :: xs, lvl', lvl, rest, acc, h => by
+      simp only [TokWFXs, TokWFV, Bool.and_eq_true] at h
+      simp only [ltoksXs, ltoksV, denXs, denV, List.cons_append, List.append_assoc, List.nil_append]
+      have hsplit := splitGroup_skip [')'] lvl (ltoksXs (lvl + 1) l) (ltoksXs lvl xs ++ rest)
+        (fun t ht => by have := ltoksXs_ge l (lvl + 1) t ht; omega)
+      have hinner : parseListToks (lvl + 1) (ltoksXs (lvl + 1) l) [] = .ok (denXs l) := by
+        have := scanXs l (lvl + 1) (lvl + 1) [] [] h.1
+        simpa [pl_nil] using this
+      rw [pl_paren lvl' lvl _ _ _ acc _ hsplit hinner, scanXs xs lvl' lvl rest _ h.2]
+      simp
+end
+
+/-- **B (dict).** on the tokens of a well-formed token tree the dict scanner computes the denotation.
+    `Boundary lvl prev0` (decidable; true for `prev0 = []`, the only call pattern of the reader) is needed: see
+    `scan_dict_needs_boundary`. -/
+theorem scan_dict (es : Entries) (top : Bool) (lvl : Int) (prev0 : List Tok) (acc : Entries)
+    (h : TokWFEs es = true) (hB : Boundary lvl prev0) :
+    parseDictToks top prev0 (ltoksEs lvl es) acc = .ok (denEs es acc) := by
+  have := scanEs es top lvl prev0 [] acc h hB
+  simpa [pd_nil] using this
+
+/-- **B (list).** on the tokens of a well-formed item list the list scanner computes the denotation -/
+theorem scan_list (xs : List Val) (lvl' lvl : Int) (acc : List Val) (h : TokWFXs xs = true) :
+    parseListToks lvl' (ltoksXs lvl xs) acc = .ok (acc ++ denXs xs) := by
+  have := scanXs xs lvl' lvl [] acc h
+  simpa [pl_nil] using this
+
+theorem C02_scan (es : Entries) (h : TokWFEs es = true) :
+    parseDictToks true [] (levels 0 (toksEs es)) [] = .ok (denEs es []) := by
+  rw [levels_toks_nil es 0 h]
+  exact scan_dict es true 0 [] [] h (boundary_nil 0)
+
+/-! ### C. layout -/
+
+/-- `_separate_delimiters`: every delimiter character gets a blank on both sides -/
+def sepD (s : Str) : Str := s.flatMap fun c => if Gen.delimiters.contains c then [' ', c, ' '] else [c]
+
+theorem tokenize_eq (s : Str) : tokenize s = tokenize.go [] (sepD s) := rfl
+
+/-- emit the pending word, if any -/
+def flush (cur : Str) (l : List Str) : List Str := if cur.isEmpty then l else cur.reverse :: l
+
+theorem flush_nil (l : List Str) : flush [] l = l := rfl
+
+theorem sepD_append (a b : Str) : sepD (a ++ b) = sepD a ++ sepD b := by
+  simp [sepD, List.flatMap_append]
+
+theorem sepD_plain (w : Str) (hw : ∀ c ∈ w, Gen.delimiters.contains c = false) : sepD w = w := by
+  induction w with
+  | nil => rfl
+  | cons a w ih =>
+    have ha : Gen.delimiters.contains a = false := hw a (by simp)
+    have := ih (fun c hc => hw c (by simp [hc]))
+    simp only [sepD, List.flatMap_cons, ha, Bool.false_eq_true, if_false, List.singleton_append] at this ⊢
+    rw [this]
+
+theorem sepD_ws (s : Str) (h : s.all isWs = true) : sepD s = s :=
+  sepD_plain s fun c hc => ws_not_delim (List.all_eq_true.mp h c hc)
+
+theorem go_nil (cur : Str) : tokenize.go cur [] = flush cur [] := by
+  simp [tokenize.go, flush]
+
+/-- white space after a (possibly empty) pending word -/
+theorem go_ws (s rest cur : Str) (h : s.all isWs = true) (hne : cur = [] ∨ s ≠ []) :
+    tokenize.go cur (s ++ rest) = flush cur (tokenize.go [] rest) := by
+  induction s generalizing cur with
+  | nil =>
+    rcases hne with rfl | h'
+    · rfl
+    · exact absurd rfl h'
+  | cons a s ih =>
+    simp only [List.all_cons, Bool.and_eq_true] at h
+    have key : tokenize.go [] (s ++ rest) = tokenize.go [] rest := by
+      simpa [flush] using ih [] h.2 (Or.inl rfl)
+    cases cur with
+    | nil => simp [tokenize.go, h.1, flush, key]
+    | cons c cur => simp [tokenize.go, h.1, flush, key]
+
+theorem go_word (w rest cur : Str) (hw : ∀ c ∈ w, isWs c = false) :
+    tokenize.go cur (w ++ rest) = tokenize.go (w.reverse ++ cur) rest := by
+  induction w generalizing cur with
+  | nil => rfl
+  | cons a w ih =>
+    have ha : isWs a = false := hw a (by simp)
+    simp [tokenize.go, ha, ih _ (fun c hc => hw c (by simp [hc]))]
+
+theorem wordTok_chars {w : Str} (h : isWordTok w = true) :
+    w ≠ [] ∧ (∀ c ∈ w, isWs c = false) ∧ (∀ c ∈ w, Gen.delimiters.contains c = false) := by
+  simp only [isWordTok, Bool.and_eq_true, Bool.not_eq_true', List.all_eq_true] at h
+  refine ⟨by simpa using h.1.1, fun c hc => (h.1.2 c hc).1, fun c hc => (h.1.2 c hc).2⟩
+
+theorem wordTok_not_delimTok {w : Str} (h : isWordTok w = true) : isDelimTok w = false := by
+  match w, h with
+  | [], _ => rfl
+  | [c], h => simpa [isDelimTok] using (wordTok_single h).2.2
+  | _ :: _ :: _, _ => rfl
+
+/-- a delimiter token after any amount of white space (none included) -/
+theorem go_tok_delim (g : Str) (c : Char) (rest cur : Str) (hg : g.all isWs = true)
+    (hc : Gen.delimiters.contains c = true) :
+    tokenize.go cur (g ++ sepD [c] ++ rest) = flush cur ([c] :: tokenize.go [] rest) := by
+  have hcw : isWs c = false := delim_not_ws c (by simpa using hc)
+  have e : g ++ sepD [c] ++ rest = (g ++ [' ']) ++ (c :: ' ' :: rest) := by
+    simp only [sepD, List.flatMap_cons, List.flatMap_nil, hc, if_true, List.append_assoc, List.cons_append,
+      List.nil_append, List.append_nil]
+  rw [e, go_ws (g ++ [' ']) _ cur (by simp [hg, isWs_space]) (Or.inr (by simp))]
+  simp [tokenize.go, hcw, isWs_space]
+
+/-- a word token after white space (which may be missing only when no word is pending) -/
+theorem go_tok_word (g w rest cur : Str) (hg : g.all isWs = true) (hw : isWordTok w = true)
+    (hne : cur = [] ∨ g ≠ []) :
+    tokenize.go cur (g ++ sepD w ++ rest) = flush cur (tokenize.go w.reverse rest) := by
+  obtain ⟨_, h1, h2⟩ := wordTok_chars hw
+  rw [sepD_plain w h2, List.append_assoc, go_ws g _ cur hg hne, go_word w rest [] h1]
+  simp
+
+/-- what `GapsOK` says about the gap in front of the first token, given what precedes it -/
+def SepHead : List Str → List Str → Prop
+  | t :: _, g :: _ => isDelimTok t = true ∨ g ≠ []
+  | _, _ => True
+
+theorem gapsOK_cons {t : Str} {ts : List Str} {g : Str} {gs : List Str}
+    (h : GapsOK (t :: ts) (g :: gs) = true) (hlen : ts.length ≤ gs.length) :
+    g.all isWs = true ∧ GapsOK ts gs = true ∧ (isDelimTok t = false → SepHead ts gs) := by
+  match ts, gs, h, hlen with
+  | [], _, h, _ => exact ⟨by simpa [GapsOK] using h, rfl, fun _ => trivial⟩
+  | u :: ts, [], _, hlen => simp at hlen
+  | u :: ts, g' :: gs, h, _ =>
+    simp only [GapsOK, Bool.and_eq_true, Bool.or_eq_true, Bool.not_eq_true', List.isEmpty_eq_false_iff] at h
+    refine ⟨h.1.1, h.2, fun ht => ?_⟩
+    rcases h.1.2 with (h' | h') | h'
+    · simp [ht] at h'
+    · exact Or.inl h'
+    · exact Or.inr h'
+
+theorem go_spread : ∀ (toks gaps : List Str) (tail cur : Str),
+    (∀ t ∈ toks, isWordTok t = true ∨ isDelimTok t = true) → toks.length ≤ gaps.length →
+    GapsOK toks gaps = true → tail.all isWs = true → (cur = [] ∨ SepHead toks gaps) →
+    tokenize.go cur (sepD (spread toks gaps tail)) = flush cur toks
+  | [], gaps, tail, cur, _, _, _, htail, _ => by
+    simp only [spread, sepD_ws tail htail]
+    cases tail with
+    | nil => exact go_nil cur
+    | cons a tl => simpa [go_nil, flush] using go_ws (a :: tl) [] cur htail (Or.inr (by simp))
+  | t :: ts, [], _, _, _, hlen, _, _, _ => by simp at hlen
+  | t :: ts, g :: gs, tail, cur, htoks, hlen, hg, htail, hcur => by
+    have hlen' : ts.length ≤ gs.length := by simpa using hlen
+    obtain ⟨hgws, hrest, hsep⟩ := gapsOK_cons hg hlen'
+    have htoks' : ∀ t ∈ ts, isWordTok t = true ∨ isDelimTok t = true := fun u hu => htoks u (by simp [hu])
+    simp only [spread, sepD_append, sepD_ws g hgws]
+    cases hd : isDelimTok t with
+    | true =>
+      obtain ⟨c, rfl, hc⟩ : ∃ c, t = [c] ∧ Gen.delimiters.contains c = true := by
+        match t, hd with
+        | [c], hd => exact ⟨c, rfl, by simpa [isDelimTok] using hd⟩
+      rw [go_tok_delim g c _ cur hgws hc, go_spread ts gs tail [] htoks' hlen' hrest htail (Or.inl rfl)]
+      rfl
+    | false =>
+      have hw : isWordTok t = true := by
+        rcases htoks t (by simp) with h | h
+        · exact h
+        · simp [hd] at h
+      have hne : cur = [] ∨ g ≠ [] := by
+        rcases hcur with h | h
+        · exact Or.inl h
+        · rcases h with h | h
+          · simp [hd] at h
+          · exact Or.inr h
+      rw [go_tok_word g t _ cur hgws hw hne,
+        go_spread ts gs tail t.reverse htoks' hlen' hrest htail (Or.inr (hsep hd))]
+      have : t.reverse.isEmpty = false := by simpa using (wordTok_chars hw).1
+      simp [flush, this]
+
+theorem gapsOK_len : ∀ (toks gaps : List Str), GapsOK toks gaps = true →
+    toks.length ≤ gaps.length ∨ ∃ t, toks = [t] ∧ gaps = []
+  | [], _, _ => Or.inl (by simp)
+  | [t], [], _ => Or.inr ⟨t, rfl, rfl⟩
+  | [t], g :: gs, _ => Or.inl (by simp)
+  | t :: u :: ts, [], h => by simp [GapsOK] at h
+  | t :: u :: ts, [g], h => by simp [GapsOK] at h
+  | t :: u :: ts, g :: g' :: gs, h => by
+    simp only [GapsOK, Bool.and_eq_true] at h
+    rcases gapsOK_len (u :: ts) (g' :: gs) h.2 with h' | ⟨_, _, h'⟩
+    · left; simpa using h'
+    · cases h'
+
+/-- **C.** delimiter separation followed by white-space splitting recovers the token list of any admissible
+    layout, whatever the amount and kind of white space. -/
+theorem tokenize_spread (toks gaps : List Str) (tail : Str)
+    (htoks : ∀ t ∈ toks, isWordTok t = true ∨ isDelimTok t = true)
+    (hg : GapsOK toks gaps = true) (htail : tail.all isWs = true) :
+    tokenize (spread toks gaps tail) = toks := by
+  rw [tokenize_eq]
+  rcases gapsOK_len toks gaps hg with hlen | ⟨t, rfl, rfl⟩
+  · simpa [flush] using go_spread toks gaps tail [] htoks hlen hg htail (Or.inl rfl)
+  · have : spread [t] [] tail = spread [t] [[]] tail := by simp [spread]
+    rw [this]
+    simpa [flush] using go_spread [t] [[]] tail [] htoks (by simp) (by simp [GapsOK]) htail (Or.inl rfl)
+
+theorem delimTok_facts : isDelimTok ['{'] = true ∧ isDelimTok ['}'] = true ∧ isDelimTok ['('] = true ∧
+    isDelimTok [')'] = true ∧ isDelimTok [';'] = true := by decide
+
+mutual
+  theorem toksV_word_or_delim : ∀ (v : Val), TokWFV v = true →
+      ∀ t ∈ toksV v, isWordTok t = true ∨ isDelimTok t = true
+    | .leaf x, h, t, ht => by
+      cases x with
+      | str w =>
+        simp only [TokWFV, Bool.and_eq_true] at h
+        simp only [toksV, List.mem_singleton] at ht
+        subst ht; exact Or.inl h.1
+      | _ => simp [TokWFV] at h
+    | .dict es, h, t, ht => by
+      simp only [TokWFV] at h
+      simp only [toksV, List.mem_cons, List.mem_append, List.not_mem_nil, or_false, or_assoc] at ht
+      rcases ht with rfl | ht | rfl
+      · exact Or.inr delimTok_facts.1
+      · exact toksEs_word_or_delim es h t ht
+      · exact Or.inr delimTok_facts.2.1
+    | .list xs, h, t, ht => by
+      simp only [TokWFV] at h
+      simp only [toksV, List.mem_cons, List.mem_append, List.not_mem_nil, or_false, or_assoc] at ht
+      rcases ht with rfl | ht | rfl
+      · exact Or.inr delimTok_facts.2.2.1
+      · exact toksXs_word_or_delim xs h t ht
+      · exact Or.inr delimTok_facts.2.2.2.1
+  theorem toksEs_word_or_delim : ∀ (es : Entries), TokWFEs es = true →
+      ∀ t ∈ toksEs es, isWordTok t = true ∨ isDelimTok t = true
+    | [], _, t, ht => by simp [toksEs] at ht
+    | (.int z, v) :: es, h, _, _ => by simp [TokWFEs] at h
+    | (.str k, .leaf x) :: es, h, t, ht => by
+      cases x with
+      | str w =>
+        simp only [TokWFEs, Bool.and_eq_true] at h
+        obtain ⟨h1, hes⟩ := h
+        simp only [toksEs, List.mem_append] at ht
+        rcases ht with ht | ht
+        · by_cases hp : isPhTok k = true
+          · simp only [hp, if_true, Bool.and_eq_true, List.mem_singleton] at h1 ht
+            subst ht; exact Or.inl h1.1
+          · simp only [hp, if_false, Bool.and_eq_true, Bool.false_eq_true, List.mem_cons, List.not_mem_nil,
+              or_false] at h1 ht
+            rcases ht with rfl | rfl | rfl
+            · exact Or.inl h1.1.1.1
+            · exact Or.inl h1.1.2
+            · exact Or.inr delimTok_facts.2.2.2.2
+        · exact toksEs_word_or_delim es hes t ht
+      | _ => simp [TokWFEs, TokWFV] at h
+    | (.str k, .dict d) :: es, h, t, ht => by
+      simp only [TokWFEs, TokWFV, Bool.and_eq_true] at h
+      obtain ⟨⟨⟨⟨hk, _⟩, _⟩, hd⟩, hes⟩ := h
+      simp only [toksEs, List.mem_cons, List.mem_append, List.not_mem_nil, or_false, or_assoc] at ht
+      rcases ht with rfl | rfl | ht | rfl | ht
+      · exact Or.inl hk
+      · exact Or.inr delimTok_facts.1
+      · exact toksEs_word_or_delim d hd t ht
+      · exact Or.inr delimTok_facts.2.1
+      · exact toksEs_word_or_delim es hes t ht
+    | (.str k, .list l) :: es, h, t, ht => by
+      simp only [TokWFEs, TokWFV, Bool.and_eq_true] at h
+      obtain ⟨⟨⟨⟨hk, _⟩, _⟩, hl⟩, hes⟩ := h
+      simp only [toksEs, List.mem_cons, List.mem_append, List.not_mem_nil, or_false, or_assoc] at ht
+      rcases ht with rfl | rfl | ht | rfl | rfl | ht
+      · exact Or.inl hk
+      · exact Or.inr delimTok_facts.2.2.1
+      · exact toksXs_word_or_delim l hl t ht
+      · exact Or.inr delimTok_facts.2.2.2.1
+      · exact Or.inr delimTok_facts.2.2.2.2
+      · exact toksEs_word_or_delim es hes t ht
+  theorem toksXs_word_or_delim : ∀ (xs : List Val), TokWFXs xs = true →
+      ∀ t ∈ toksXs xs, isWordTok t = true ∨ isDelimTok t = true
+    | [], _, t, ht => by simp [toksXs] at ht
+    | v :: xs, h, t, ht => by
+      simp only [TokWFXs, Bool.and_eq_true] at h
+      simp only [toksXs, List.mem_append] at ht
+      rcases ht with ht | ht
+      · exact toksV_word_or_delim v h.1 t ht
+      · exact toksXs_word_or_delim xs h.2 t ht
+end
+
+/-- every token of a well-formed token tree is a word token or a delimiter token -/
+theorem toks_all_word_or_delim (es : Entries) (h : TokWFEs es = true) :
+    ∀ t ∈ toksEs es, isWordTok t = true ∨ isDelimTok t = true := toksEs_word_or_delim es h
+
+/-! ### D. layout tolerance -/
+
+/-- **C02 (token level).** Whatever white space separates the tokens of a well-formed token tree, the
+    reader's token pipeline (tokenize → hierarchy → scanner) returns the documented denotation. -/
+theorem C02_layout_tolerant_tokens (es : Entries) (gaps : List Str) (tail : Str)
+    (h : TokWFEs es = true) (hg : GapsOK (toksEs es) gaps = true) (ht : tail.all isWs = true) :
+    parseDictToks true [] (levels 0 (tokenize (spread (toksEs es) gaps tail))) [] = .ok (denEs es []) := by
+  rw [tokenize_spread _ _ _ (toks_all_word_or_delim es h) hg ht]
+  exact C02_scan es h
+
+/-- two admissible layouts of the same token tree scan to the same result, and the scan does not fail -/
+theorem C02_layout_independent (es : Entries) (gaps₁ gaps₂ : List Str) (tail₁ tail₂ : Str)
+    (h : TokWFEs es = true)
+    (hg₁ : GapsOK (toksEs es) gaps₁ = true) (ht₁ : tail₁.all isWs = true)
+    (hg₂ : GapsOK (toksEs es) gaps₂ = true) (ht₂ : tail₂.all isWs = true) :
+    parseDictToks true [] (levels 0 (tokenize (spread (toksEs es) gaps₁ tail₁))) [] =
+      parseDictToks true [] (levels 0 (tokenize (spread (toksEs es) gaps₂ tail₂))) [] ∧
+    ∃ d, parseDictToks true [] (levels 0 (tokenize (spread (toksEs es) gaps₁ tail₁))) [] = .ok d := by
+  rw [C02_layout_tolerant_tokens es gaps₁ tail₁ h hg₁ ht₁, C02_layout_tolerant_tokens es gaps₂ tail₂ h hg₂ ht₂]
+  exact ⟨rfl, _, rfl⟩
+
+/-! ### E. a concrete instance -/
+
+/-- `a 1; sub { x y; l ( 1 ( 2 ) { q r; } ); } 7 z;` -/
+def exTree : Entries :=
+  [ (.str ['a'], .leaf (.str ['1'])),
+    (.str ['s', 'u', 'b'], .dict
+      [ (.str ['x'], .leaf (.str ['y'])),
+        (.str ['l'], .list [.leaf (.str ['1']), .list [.leaf (.str ['2'])], .dict [(.str ['q'], .leaf (.str ['r']))]]) ]),
+    (.str ['7'], .leaf (.str ['z'])) ]
+
+theorem exTree_wf : TokWFEs exTree = true := by decide
+
+theorem exTree_toks : toksEs exTree =
+    [['a'], ['1'], [';'], ['s', 'u', 'b'], ['{'], ['x'], ['y'], [';'], ['l'], ['('], ['1'], ['('], ['2'], [')'],
+     ['{'], ['q'], ['r'], [';'], ['}'], [')'], [';'], ['}'], ['7'], ['z'], [';']] := by decide
+
+theorem exTree_den : denEs exTree [] =
+    [ (.str ['a'], .leaf (.int 1)),
+      (.str ['s', 'u', 'b'], .dict
+        [ (.str ['x'], .leaf (.str ['y'])),
+          (.str ['l'], .list [.leaf (.int 1), .list [.leaf (.int 2)], .dict [(.str ['q'], .leaf (.str ['r']))]]) ]),
+      (.int 7, .leaf (.str ['z'])) ] := by decide
+
+/-- everything glued where the grammar allows it -/
+def exGapsGlued : List Str :=
+  [[], [' '], [], [], [], [], [' '], [], [], [], [], [], [], [], [], [], [' '], [], [], [], [], [], [], [' '], []]
+
+/-- tabs, line feeds, CRLF, a no-break space, runs of blanks -/
+def exGapsLoose : List Str :=
+  [['\t'], ['\t', '\t'], [' '], ['\r', '\n'], ['\r', '\n'], ['\r', '\n', ' ', ' '], [' ', ' ', ' '], [], ['\r', '\n', ' ', ' '],
+   [' '], [' '], [' '], [], [], [' '], [], [' '], [], [], [' '], ['\n'], ['\r', '\n'], ['\r', '\n'], ['\u00a0'], ['\t']]
+
+theorem exGapsGlued_ok : GapsOK (toksEs exTree) exGapsGlued = true := by decide
+theorem exGapsLoose_ok : GapsOK (toksEs exTree) exGapsLoose = true := by decide
+
+theorem exGlued_text : spread (toksEs exTree) exGapsGlued [] = "a 1;sub{x y;l(1(2){q r;});}7 z;".toList := by decide
+
+theorem exLoose_text : spread (toksEs exTree) exGapsLoose ['\r', '\n'] =
+    "\ta\t\t1 ;\r\nsub\r\n{\r\n  x   y;\r\n  l ( 1 (2) {q r;} )\n;\r\n}\r\n7\u00a0z\t;\r\n".toList := by decide
+
+theorem ex_glued : parseDictToks true [] (levels 0 (tokenize "a 1;sub{x y;l(1(2){q r;});}7 z;".toList)) [] =
+    .ok (denEs exTree []) := by
+  rw [← exGlued_text]
+  exact C02_layout_tolerant_tokens exTree exGapsGlued [] exTree_wf exGapsGlued_ok rfl
+
+theorem ex_loose : parseDictToks true [] (levels 0 (tokenize
+      "\ta\t\t1 ;\r\nsub\r\n{\r\n  x   y;\r\n  l ( 1 (2) {q r;} )\n;\r\n}\r\n7\u00a0z\t;\r\n".toList)) [] =
+    .ok (denEs exTree []) := by
+  rw [← exLoose_text]
+  exact C02_layout_tolerant_tokens exTree exGapsLoose ['\r', '\n'] exTree_wf exGapsLoose_ok (by decide)
+
 end DictIO.C02
